@@ -86,3 +86,15 @@ package cmds
 //@   safety C08
 //@   ensures [C08 same-identity-as-GET] c.cs.s[0][0] != 'J' ==> result == "GET"
 //@   ensures [C08 same-identity-as-JSON-GET] c.cs.s[0][0] == 'J' ==> result == "JSON.GET" + c.cs.s[len(c.cs.s)-1]
+
+// C28: a command may be re-sent automatically exactly when it carries the retryable tag; read-only commands carry it too
+// (readonly = 1<<13 | retryableTag). Usable from the contracts of the client package.
+//@ specfn macro retryableCmd(c Completed) bool = c.cf & retryableTag == retryableTag
+//@ func Completed.IsRetryable
+//@   inline
+//@   mode bv
+//@   ensures [C28 retryable-means-the-retryable-tag] result <==> retryableCmd(*c)
+//@ func Completed.IsReadOnly
+//@   inline
+//@   mode bv
+//@   ensures [C28 read-only-commands-are-retryable] result ==> retryableCmd(*c)
